@@ -12,6 +12,7 @@ from functools import cached_property
 from typing import Generic, TypeVar, cast
 
 import numpy
+import shapely
 import xarray
 from shapely.geometry import Polygon, box
 from shapely.geometry.base import BaseGeometry
@@ -251,12 +252,9 @@ class CFGrid(Generic[Topology], DimensionConvention[CFGridKind, CFGridIndex]):
 
     @cached_property
     def bounds(self) -> Bounds:
-        # This can be computed easily from the coordinate bounds
-        topology = self.topology
-        min_x = numpy.nanmin(topology.longitude_bounds)
-        max_x = numpy.nanmax(topology.longitude_bounds)
-        min_y = numpy.nanmin(topology.latitude_bounds)
-        max_y = numpy.nanmax(topology.latitude_bounds)
+        # The bounding box of the cells. This is much cheaper than merging all the cells.
+        # Cells without a polygon do not count, whatever their stored bounds say.
+        min_x, min_y, max_x, max_y = shapely.total_bounds(self.polygons[self.mask])
         return (min_x, min_y, max_x, max_y)
 
     @cached_property
